@@ -27,32 +27,45 @@ if demo_cmd is None:
         demo_cmd = None
 assert demo_cmd, "no demonstration found"
 meta = {"property": prop, "source": "independent sub-agent, given only the property text and a scratch worktree", "ran": []}
-sh("git checkout -- src", wt)
-rc0, out0 = sh(demo_cmd, wt); meta["ran"].append({"cmd": demo_cmd + " (unchanged tree)", "exit": rc0})
-rc, _ = sh(f"git apply mutation{i}.diff", wt); assert rc == 0, "diff does not apply in worktree"
-rc1, out1 = sh(demo_cmd, wt); meta["ran"].append({"cmd": demo_cmd + " (with change)", "exit": rc1})
-rc2, out2 = sh("cargo test --offline --lib", wt); meta["ran"].append({"cmd": "cargo test --offline --lib (with change)", "exit": rc2, "tail": out2.strip().splitlines()[-1:]})
-rc3, out3 = sh("cargo test --offline --doc", wt); meta["ran"].append({"cmd": "cargo test --offline --doc (with change)", "exit": rc3})
-sh("git checkout -- src", wt)
-ok = rc0 == 0 and rc1 != 0 and rc2 == 0 and rc3 == 0
-print(f"confirm: demo unchanged={rc0} with-change={rc1} lib-tests={rc2} doc-tests={rc3} -> {'CONFIRMED' if ok else 'REJECTED'}")
-if not ok:
-    print(out1[-600:]); sys.exit(1)
+REPO = os.environ.get("SEEDED_REPO", "/repo")       # a lane: scratch worktree + copy of /verif built against it
+VERIF = os.environ.get("SEEDED_VERIF", "/verif")
+phase = os.environ.get("SEEDED_PHASE", "all")   # confirm | check | all
+marker = os.path.join(wt, f".confirmed{i}.json")
+if phase == "check" and os.path.exists(marker):
+    meta = json.load(open(marker))
+    confirmed = True
+else:
+    confirmed = False
+if not confirmed:
+  sh("git checkout -- src", wt)
+  rc0, out0 = sh(demo_cmd, wt);   meta["ran"].append({"cmd": demo_cmd + " (unchanged tree)", "exit": rc0})
+  rc, _ = sh(f"git apply mutation{i}.diff", wt); assert rc == 0, "diff does not apply in worktree"
+  rc1, out1 = sh(demo_cmd, wt); meta["ran"].append({"cmd": demo_cmd + " (with change)", "exit": rc1})
+  rc2, out2 = sh("cargo test --offline --lib", wt); meta["ran"].append({"cmd": "cargo test --offline --lib (with change)", "exit": rc2, "tail": out2.strip().splitlines()[-1:]})
+  rc3, out3 = sh("cargo test --offline --doc", wt); meta["ran"].append({"cmd": "cargo test --offline --doc (with change)", "exit": rc3})
+  sh("git checkout -- src", wt)
+  ok = rc0 == 0 and rc1 != 0 and rc2 == 0 and rc3 == 0
+  print(f"confirm: demo unchanged={rc0} with-change={rc1} lib-tests={rc2} doc-tests={rc3} -> {'CONFIRMED' if ok else 'REJECTED'}")
+  if not ok:
+      print(out1[-600:]); sys.exit(1)
+  json.dump(meta, open(marker, 'w'))
+if phase == 'confirm':
+    sys.exit(0)
 # against /repo
-rc, o = sh(f"git -C /repo apply {diff}")
+rc, o = sh(f"git -C {REPO} apply {diff}")
 if rc != 0:
     print("diff does not apply to /repo HEAD:", o); sys.exit(1)
 results = {}
 try:
     for p in [prop] + extra:
         env = dict(os.environ)
-        rc, o = sh(f"/verif/check {p}", env=env)
+        rc, o = sh(f"{VERIF}/check {p}", env=env)
         lines = [l for l in o.splitlines() if l.startswith("VIOLATION") or l.startswith("  ") or "HARNESS" in l]
         results[p] = {"exit": rc, "lines": lines[:6]}
         print(f"check {p}: exit {rc}")
         for l in lines[:4]: print("    ", l[:300])
 finally:
-    sh("git -C /repo checkout -- .")
+    sh(f"git -C {REPO} checkout -- .")
 meta["checks"] = results
 meta["detected_by"] = [p for p, r in results.items() if r["exit"] == 1]
 d = os.path.join("/verif/seeded", sid); os.makedirs(d, exist_ok=True)
